@@ -1,7 +1,8 @@
 //! C17 — incremental updates are append-only and take effect.
 //!
 //! Request: `e <base> <fields> <notes> <steps>`
-//!   base   = rc | rs | rz | ro | rO | lc | lx   (+ optional suffix `n`: base without trailing EOL)
+//!   base   = rc | rs | rz | ro | rO | lc | lx   (+ optional suffixes `m`: the base already has a second
+//!            cross-reference section appended by the reference writer; `n`: base without trailing EOL)
 //!            r* = written by the reference writer (classic / xref stream raw / xref stream Flate /
 //!                 xref stream + fields, AcroForm, page and notes inside an object stream raw / Flate)
 //!            l* = written by the library's own writer (classic / xref-stream config)
@@ -13,10 +14,19 @@
 //!                               | A<x>.<y>.<contentshex>          (TextNoteMutation::Add, page 0)
 //!                               | U<i>.<x>.<y>.<contentshex>      (Update of the i-th note of notes())
 //!                               | R<i>                            (Remove the i-th note)
+//!                               | P<k>   PdfWriter::write_incremental_update: ADD k blank pages
+//!                               | Q<k>   PdfWriter::write_incremental_with_page_replacement: k blank
+//!                                        pages REPLACE the first k pages
 //! Answer: `B<len>,<startxref>,<size>,<eol>|<step>|…|<final>`
 //!   step  = <status>:<prefix>:<suffixhex>   status ok | err:<class>; prefix 1 = output starts with
 //!           the previous file's bytes; suffix = the appended bytes
+//!           P/Q steps: <status>:<prefix>:G<prev>.<startxref>.<xrefpos>.<size>.<bad entries>.<appended length>.<kids>
+//!           = what an independent scan of the appended bytes finds: /Prev and /Size of the last
+//!           trailer, the last startxref, where the last `xref` keyword stands, the number of
+//!           cross-reference entries that do not point at their `N G obj` header (or free a
+//!           number), and the page list of the NEW /Pages object as written (`<num>_…`)
 //!   final = L<namehex>=<hex of to_text(/V) as UTF-8 | none>,…;N<x>.<y>.<contentshex>,…;U<ok|diff-n>
+//!           ;K<page object numbers of the base, as the library walks /Kids>_><the same for the last file>
 //!           as read back by the library from the last file (fields, notes(), untouched objects)
 use oxiharness::*;
 #[path = "../shared_b0417/reffile.rs"]
@@ -184,8 +194,32 @@ fn build_ref_base(kind: &str, fields: &[FieldSpec], notes: usize) -> Vec<u8> {
         }
     }
     ents.sort_by_key(|e| e.0);
+    let multi = kind.len() > 2 && kind[2..].contains('m');
+    let stream_base = !matches!(xk, XKind::Classic);
+    let phys1 = objs.len() + if stream_base { 1 } else { 0 };
+    let top = ents.iter().map(|e| e.0).max().unwrap_or(0);
     let rev = Rev { objs, xk, ents, root: 1, trailer_extra: String::new(), size_override: None };
-    build(&[rev]).bytes
+    if !multi {
+        return build(&[rev]).bytes;
+    }
+    // the base already HAS a second cross-reference section: a reference-writer revision that
+    // rewrites /Pages (same content) and adds an unrelated object; classic over classic bases,
+    // a cross-reference stream otherwise
+    let pages = "<< /Type /Pages /Kids [3 0 R] /Count 1 >>".to_string();
+    let extra = top + 1;
+    let objs2 = vec![
+        Phys { num: 2, gen: 0, body: Body::Raw(pages.into_bytes()) },
+        Phys { num: extra, gen: 0, body: Body::Raw(b"<< /Marker /SecondRevision >>".to_vec()) },
+    ];
+    let mut ents2 = vec![(2, Ent::At { phys: phys1, gen: 0 }), (extra, Ent::At { phys: phys1 + 1, gen: 0 })];
+    let xk2 = if stream_base {
+        ents2.push((extra + 1, Ent::At { phys: phys1 + 2, gen: 0 }));
+        XKind::Stream { num: extra + 1, flate: k == b'z' || k == b'O' }
+    } else {
+        XKind::Classic
+    };
+    let rev2 = Rev { objs: objs2, xk: xk2, ents: ents2, root: 1, trailer_extra: String::new(), size_override: None };
+    build(&[rev, rev2]).bytes
 }
 
 fn build_lib_base(kind: &str, fields: &[FieldSpec]) -> Result<Vec<u8>, String> {
@@ -360,6 +394,135 @@ fn untouched(base: &[u8], fin: &[u8], size: u32, touched: &std::collections::BTr
     "ok".into()
 }
 
+/// independent scan (no library code) of the bytes a page step appended
+fn scan_appended(all: &[u8], from: usize) -> String {
+    let suf = &all[from..];
+    let rfind = |hay: &[u8], pat: &[u8]| -> Option<usize> {
+        if hay.len() < pat.len() {
+            return None;
+        }
+        (0..=hay.len() - pat.len()).rev().find(|&i| &hay[i..i + pat.len()] == pat)
+    };
+    let num_after = |hay: &[u8], mut p: usize| -> Option<u64> {
+        while p < hay.len() && (hay[p] == b' ' || hay[p] == b'\n' || hay[p] == b'\r') {
+            p += 1;
+        }
+        let st = p;
+        let mut v = 0u64;
+        while p < hay.len() && hay[p].is_ascii_digit() {
+            v = v * 10 + (hay[p] - b'0') as u64;
+            p += 1;
+        }
+        if p == st {
+            None
+        } else {
+            Some(v)
+        }
+    };
+    let sx = rfind(suf, b"startxref").and_then(|p| num_after(suf, p + 9));
+    let tr = rfind(suf, b"trailer");
+    let key = |k: &[u8]| -> Option<u64> {
+        let t = tr?;
+        let rel = rfind(&suf[t..], k)?;
+        num_after(suf, t + rel + k.len())
+    };
+    let prev = key(b"/Prev");
+    let size = key(b"/Size");
+    let xr = rfind(suf, b"\nxref\n").map(|p| p + 1);
+    // entries
+    let mut bad = 0usize;
+    if let (Some(x), Some(t)) = (xr, tr) {
+        let text = String::from_utf8_lossy(&suf[x + 5..t]).into_owned();
+        let mut cur: Option<(u64, u64)> = None;
+        for line in text.lines() {
+            let parts: Vec<&str> = line.split_whitespace().collect();
+            if parts.len() == 2 {
+                if let (Ok(a), Ok(c)) = (parts[0].parse::<u64>(), parts[1].parse::<u64>()) {
+                    cur = Some((a, c));
+                    continue;
+                }
+            }
+            if parts.len() == 3 {
+                let Some((n, _)) = cur else {
+                    bad += 1;
+                    continue;
+                };
+                cur = cur.map(|(a, c)| (a + 1, c));
+                let off: usize = parts[0].parse().unwrap_or(usize::MAX);
+                if parts[2] == "n" {
+                    let hdr = format!("{} {} obj", n, parts[1].parse::<u64>().unwrap_or(99999));
+                    if off >= all.len() || !all[off..].starts_with(hdr.as_bytes()) {
+                        bad += 1;
+                    }
+                } else if n != 0 {
+                    bad += 1; // an appended section that FREES a number
+                }
+            }
+        }
+    } else {
+        bad = 9999;
+    }
+    let f = |v: Option<u64>| v.map(|x| x.to_string()).unwrap_or_else(|| "x".into());
+    format!(
+        "G{}.{}.{}.{}.{}.{}",
+        f(prev),
+        f(sx),
+        xr.map(|p| (from + p).to_string()).unwrap_or_else(|| "x".into()),
+        f(size),
+        bad,
+        suf.len()
+    )
+}
+
+/// page object numbers in /Kids order, as the library resolves catalog -> /Pages -> /Kids (flat)
+fn lib_kids(bytes: &[u8]) -> String {
+    let Ok(mut r) = PdfReader::new(Cursor::new(bytes)) else { return "open".into() };
+    let Some(cat) = r.catalog().ok().cloned() else { return "cat".into() };
+    let Some((pn, pg)) = cat.get("Pages").and_then(|o| o.as_reference()) else { return "nopages".into() };
+    let Some(pages) = r.get_object(pn, pg).ok().and_then(|o| o.as_dict().cloned()) else { return "pages".into() };
+    let kids: Vec<(u32, u16)> = match pages.get("Kids") {
+        Some(PdfObject::Array(a)) => a.0.iter().filter_map(|o| o.as_reference()).collect(),
+        _ => vec![],
+    };
+    let mut out = vec![];
+    for (n, g) in kids {
+        // a kid must still be a page
+        let ty = r
+            .get_object(n, g)
+            .ok()
+            .and_then(|o| o.as_dict())
+            .and_then(|d| d.get("Type"))
+            .and_then(|o| o.as_name())
+            .map(|n| n.0.clone())
+            .unwrap_or_else(|| "?".into());
+        out.push(format!("{}{}", n, if ty == "Page" { "" } else { "x" }));
+    }
+    out.join("_")
+}
+
+fn page_step(cur: &[u8], replace: bool, k: usize) -> Result<Vec<u8>, String> {
+    let dir = std::env::temp_dir().join(format!("c17-{}", std::process::id()));
+    let _ = std::fs::create_dir_all(&dir);
+    let path = dir.join("base.pdf");
+    std::fs::write(&path, cur).map_err(|e| format!("err:io-{}", e.kind()))?;
+    let mut doc = Document::new();
+    for _ in 0..k {
+        doc.add_page(Page::a4());
+    }
+    let mut out: Vec<u8> = vec![];
+    let res = {
+        let mut w = oxidize_pdf::writer::PdfWriter::with_config(&mut out, WriterConfig::incremental());
+        if replace {
+            w.write_incremental_with_page_replacement(&path, &mut doc)
+        } else {
+            w.write_incremental_update(&path, &mut doc)
+        }
+    };
+    let _ = std::fs::remove_file(&path);
+    let _ = std::fs::remove_dir(&dir);
+    res.map(|_| out).map_err(|e| format!("err:{}", err_cls(&e)))
+}
+
 fn parse_fields(s: &str) -> Option<Vec<FieldSpec>> {
     if s == "." {
         return Some(vec![]);
@@ -452,9 +615,23 @@ fn run(req: &str) -> String {
                     None => Err("err:no-such-note".into()),
                 }
             }
+            b'P' | b'Q' => {
+                let Ok(k) = step[1..].parse::<usize>() else { return "bad-request".into() };
+                page_step(&cur, step.as_bytes()[0] == b'Q', k)
+            }
             _ => return "bad-request".into(),
         };
+        let is_page = matches!(step.as_bytes()[0], b'P' | b'Q');
         match res {
+            Ok(bytes) if is_page => {
+                let prefix = bytes.len() >= cur.len() && bytes[..cur.len()] == cur[..];
+                let obs = if prefix { scan_appended(&bytes, cur.len()) } else { "Gx.x.x.x.9999.0".into() };
+                out.push_str(&format!("|ok:{}:{}.{}", prefix as u8, obs, lib_kids(&bytes)));
+                if prefix {
+                    suffixes.push(bytes[cur.len()..].to_vec());
+                }
+                cur = bytes;
+            }
             Ok(bytes) => {
                 let prefix = bytes.len() >= cur.len() && bytes[..cur.len()] == cur[..];
                 let suf = if prefix { bytes[cur.len()..].to_vec() } else { vec![] };
@@ -485,7 +662,7 @@ fn run(req: &str) -> String {
     nl.sort();
     let touched = appended_numbers(&suffixes);
     let un = untouched(&base, &cur, bsize, &touched);
-    out.push_str(&format!("|L{};N{};U{}", l.join(","), nl.join(","), un));
+    out.push_str(&format!("|L{};N{};U{};K{}>{}", l.join(","), nl.join(","), un, lib_kids(&base), lib_kids(&cur)));
     out
 }
 
@@ -501,7 +678,7 @@ const VALUE_POOL: &[&str] = &[
 fn gen(rng: &mut Rng, tier: Tier) -> Vec<Case> {
     let mut cases = vec![];
     let n = if tier == Tier::Quick { 260 } else { 4000 };
-    let kinds = ["rc", "rs", "rz", "ro", "rO", "lc", "lx", "rcn", "rsn"];
+    let kinds = ["rc", "rs", "rz", "ro", "rO", "lc", "lx", "rcn", "rsn", "rcm", "rsm", "rom", "rOm", "rcmn", "rzm"];
     for i in 0..n {
         let kind = kinds[(i % kinds.len() as u64) as usize];
         let lib = kind.starts_with('l');
@@ -523,7 +700,7 @@ fn gen(rng: &mut Rng, tier: Tier) -> Vec<Case> {
             .collect();
         let fspec: Vec<String> = names.iter().zip(types.iter()).map(|(n, t)| format!("{}:{}", hex_text(n), t)).collect();
         let notes = if lib { 0 } else { rng.below(3) as usize };
-        let k = 1 + rng.below(if tier == Tier::Quick { 4 } else { 6 }) as usize;
+        let k = 1 + rng.below(if tier == Tier::Quick { 5 } else { 7 }) as usize;
         let mut steps = vec![];
         let mut live_notes = notes;
         let mut unicode = false;
@@ -572,12 +749,26 @@ fn gen(rng: &mut Rng, tier: Tier) -> Vec<Case> {
                 steps.push(format!("F{}", kv.join(",")));
             }
         }
+        // page paths of PdfWriter (add / replace pages): as the last step, sometimes followed by a fill
+        let mut page_step = false;
+        if i % 8 == 3 {
+            let st = format!("{}{}", if rng.chance(1, 2) { 'P' } else { 'Q' }, 1 + rng.below(2));
+            if rng.chance(1, 3) && !steps.is_empty() {
+                let last = steps.pop().unwrap();
+                steps.push(st);
+                steps.push(last);
+            } else {
+                steps.push(st);
+            }
+            page_step = true;
+        }
         let tags = format!(
-            "base-{} steps{}{}{}",
+            "base-{} steps{}{}{}{}",
             kind,
             steps.len(),
             if unicode { " unicode-value" } else { "" },
-            if steps.len() >= 2 { " nt" } else { "" }
+            if page_step { " page-step" } else { "" },
+            if steps.len() >= 2 || kind.contains('m') { " nt" } else { "" }
         );
         cases.push(Case::new(
             format!("e {} {} {} {}", kind, if fspec.is_empty() { ".".into() } else { fspec.join(",") }, notes, steps.join(";")),
